@@ -321,6 +321,20 @@ func (p *Program) verifyFunc(spec *FuncSpec) (u *Unit) {
 		}
 		c.obls = keep
 	}
+	// every return point is reachable under the contract's assumptions: a return whose path condition is unsatisfiable
+	// would have all its postconditions proved from false (an inconsistent callee contract, a contradictory requires)
+	unrolled := strings.Contains(u.Name, "#") // variants restrict the domain on purpose: some of their returns are dead
+	for _, ls := range spec.Loops {
+		if ls.Unroll > 0 {
+			unrolled = true // an unrolled loop has returns that are dead in early iterations
+		}
+	}
+	for i, r := range c.rets {
+		if unrolled {
+			break
+		}
+		c.addObl(Obl{Name: fmt.Sprintf("%s/reachable@ret%d", u.Name, i+1), Kind: "vacuity", Guard: r.St.guard, Goal: "true", Expect: "sat", Pos: c.pos(r.Pos), Text: "this return point is reachable (its postconditions are not proved vacuously)"})
+	}
 	// canary: some return point is reachable (a false postcondition must be refutable)
 	if len(c.rets) > 0 {
 		g := "false"
